@@ -48,6 +48,8 @@ def configs(tier, seed):
         out.append(C03._base(3, [[]], 2, [0], "sum", weights="none", ignore=False, fact="nan", K=K, fmt="nan", side="xcube", trio=trio))
         # the same statistics with weights in both forms (caller-owned weight arrays must stay untouched)
         wtrio = [t for t in trio if not t.startswith(("max", "min"))] + ["sum:prop"]
+        if len(set(wtrio)) < 3:
+            continue
         out.append(C03._base(2, [[]], 2, [1], "sum", weights="pair", ignore=False, fact="pair" if K == 1 else "nan", K=K, fmt="nan",
                              side="xcube", trio=wtrio[:3], wvals=["1/2", "3"]))
         if tier == "thorough" or K == 2:
